@@ -15,4 +15,6 @@ def run(tier):
     coro.grow_rule(run, fx["core/default"], "C23-PAIR-UNWIND", "C23-CHECK", "C23-VALUE")
     from rules import abi
     abi.grow_abi_rule(run, fx["hook/default"], "C23-ABI")
+    from rules import wave3
+    wave3.callback_only_via_grow_rule(run, fx["hook/default"], "C23-CALLBACK-ONLY-VIA-GROW")
     return run.finish()
